@@ -512,7 +512,7 @@ func init() {
 	fw.Register(&fw.Check{
 		ID:    "C19",
 		Level: "fault_enumeration",
-		Rule:  "for each scenario (Set for every (old,new) ∈ {absent,3,10,5000 bytes} × {3,10,5000 bytes,empty}; Delete; SaveEntity over a longer / shorter / no entity; a whole hc.NewIPTransport start on a fresh, a paired-unchanged and a paired-structurally-changed store) every file-system syscall the operation issues (listed by a reference strace run) is a kill point: the real child process is SIGKILLed at the entry of exactly that call, the directory is re-opened and every key is read through hc's API: each must equal its previous or its new value in full and Entities() must succeed and list the previous or the new set; then every key is written again with a shorter value and read back (nothing a killed write left behind may leak into later writes). distinct_nontrivial = distinct (scenario, kill point) pairs reached and verified to follow the reference trace",
+		Rule:  "for each scenario (Set for every (old,new) ∈ {absent,3,10,5000 bytes} × {3,10,5000 bytes,empty}; Delete; SaveEntity over a longer / shorter / no entity; a whole hc.NewIPTransport start on a fresh, a paired-unchanged and a paired-structurally-changed store) every file-system syscall the operation issues (listed by a reference strace run) is a kill point: the real child process is SIGKILLed at the entry of exactly that call, the directory is re-opened and every key is read through hc's API: each must equal its previous or its new value in full and Entities() must succeed and list the previous or the new set; then every key is written again with a shorter value and read back (nothing a killed write left behind may leak into later writes). distinct_nontrivial = distinct (scenario, kill point) pairs reached and verified to follow the reference trace After every kill point the operation is also REPEATED by a restarted process and must complete and leave the new state; where PID namespaces are available (unshare -p) killed and restarted process have the same process id, as a container's pid 1 has; the child's TMPDIR is on another file system than the store when /dev/shm is one.",
 		Run:   c19Run,
 		Replay: func(c *fw.Ctx, raw json.RawMessage) {
 			var cas c19Case
